@@ -383,6 +383,11 @@ func (p *provider) updateStatus(
 
 	modRS.Status.ActiveIn = x.IfThenElse(len(modRS.Status.ActiveIn) == 0, "0/0", modRS.Status.ActiveIn)
 
+	if !strings.Contains(modRS.Status.ActiveIn, "/") {
+		// the status is part of the resource and can be set to anything by anybody allowed to do so
+		modRS.Status.ActiveIn = "0/0"
+	}
+
 	usedBy := strings.Split(modRS.Status.ActiveIn, "/")
 	loadedBy, _ := strconv.Atoi(usedBy[0])
 	matchedBy, _ := strconv.Atoi(usedBy[1])
